@@ -495,6 +495,8 @@ Ltac pa_cases :=
   rewrite ?g_perform_action_eq; cbn [acc]; rewrite ?app_nil_r; try reflexivity;
   match goal with |- context [perform_action ?c ?q ?x ?b] => destruct (perform_action c q x b) as [[? ?]|] end; reflexivity.
 
+(* exit_stage / entry_stage: the ORIGINAL spelling of the two stages (kept as worked examples; g_perform_state_change_eq
+   no longer rewrites with them, see the goal-driven stages below) *)
 Lemma exit_stage c p pf b :
   match pstate p with
   | DcsPassthrough => match g_perform_action c p pf AUnhook b with Some (o, o') => Some (o, o') | None => None end
@@ -549,21 +551,67 @@ Lemma entry_stage c q pf s b :
   end = acc pf (entry_hand c q s b).
 Proof. unfold entry_hand. destruct s; pa_cases. Qed.
 
+(* Goal-driven stages (robustness R13).  The Rust source may RUN the exit / entry action inside the arms of the `match` on
+   the state (`State::DcsPassthrough => self.perform_action(.., Action::Unhook, ..)`), or first PICK it as a value
+   (`let exit = match self.state { DcsPassthrough => Action::Unhook, .., _ => Action::Nop }`) and run it unless it is `Nop`
+   (`if !matches!(exit, Action::Nop)`, `if exit != Action::Nop`, `match exit { Nop => (), a => .. }`), or test the state with
+   `==`.  None of the tactics below looks at that text: the state the goal scrutinises is destructed, the tests on the
+   now-constant action / state are EVALUATED, and the call of perform_action that remains (if any) is replaced by the hand
+   model's through g_perform_action_eq. *)
+Ltac const_tests :=
+  repeat match goal with
+         | |- context [action_eqb ?x ?y] =>
+             is_constructor x; is_constructor y;
+             let v := eval compute in (action_eqb x y) in change (action_eqb x y) with v
+         | |- context [state_eqb ?x ?y] =>
+             is_constructor x; is_constructor y;
+             let v := eval compute in (state_eqb x y) in change (state_eqb x y) with v
+         end;
+  cbn [negb andb orb acc].
+
+(* the stage the hand model runs first: if it is a call of perform_action, the translated side must show the same call
+   (g_perform_action_eq, with THAT parser, action and byte; it fails otherwise), and both are destructed together; if the
+   hand stage is a plain `Some (p, [])` the reduction of const_tests has already consumed it *)
+Ltac pa_first :=
+  lazymatch goal with
+  | |- _ = acc _ ?R =>
+      let T := first_stage R in
+      lazymatch T with
+      | perform_action ?c ?q ?x ?b =>
+          rewrite (g_perform_action_eq c q _ x b);
+          destruct (perform_action c q x b) as [[? ?]|]; cbn [acc]
+      | _ => idtac
+      end
+  | |- _ => idtac
+  end.
+
+(* the transition stage: parser and performer are read off the goal (they are whatever the exit stage left) *)
+Ltac trans_goal :=
+  lazymatch goal with
+  | |- ?L = acc _ (match trans_hand ?c ?q ?a ?b with _ => _ end) =>
+      let T := first_stage L in
+      lazymatch T with
+      | context [g_perform_action c q ?pf a b] => trans_step c q pf a b
+      end
+  end.
+
 Lemma g_perform_state_change_eq c p perf s a b :
   g_perform_state_change c p perf s a b = acc perf (perform_state_change c p s a b).
 Proof.
   destruct (state_eqb s Anywhere) eqn:Es.
   { destruct s; try discriminate Es. unfold g_perform_state_change, perform_state_change.
-    rewrite g_perform_action_eq. destruct (perform_action c p a b) as [[? ?]|]; reflexivity. }
+    const_tests. rewrite g_perform_action_eq. destruct (perform_action c p a b) as [[? ?]|]; reflexivity. }
   assert (Hs : s <> Anywhere) by (intros ->; discriminate Es).
   rewrite (psc_hand c p s a b Hs).
   unfold g_perform_state_change.
-  destruct s; try congruence; cbv zeta; rewrite exit_stage;
-    (destruct (exit_hand c p b) as [[p1 e1]|]; cbn [acc]; [|reflexivity]);
-    trans_step c p1 (perf ++ e1) a b; (destruct (trans_hand c p1 a b) as [[p2 e2]|]; cbn [acc]; [|reflexivity]).
-  all: unfold entry_hand; rewrite ?g_perform_action_eq; cbn [acc];
-    try (match goal with |- context [perform_action ?c ?q ?x ?b] => destruct (perform_action c q x b) as [[? ?]|] end);
-    cbn [acc]; rewrite <- ?app_assoc, ?app_nil_r; reflexivity.
+  (* exit: on the state being left *)
+  destruct s; try congruence; cbv zeta; unfold exit_hand; const_tests;
+    destruct (pstate p) eqn:Ep; const_tests; pa_first; try reflexivity.
+  (* transition: on the action, `Nop` or not *)
+  all: trans_goal;
+    match goal with |- context [trans_hand ?c0 ?q ?a0 ?b0] => destruct (trans_hand c0 q a0 b0) as [[? ?]|] end; cbn [acc]; [|reflexivity].
+  (* entry: the state being entered is a constant in every goal *)
+  all: unfold entry_hand; const_tests; pa_first; cbn [app]; rewrite <- ?app_assoc, ?app_nil_r; reflexivity.
 Qed.
 
 Lemma g_advance_eq c p perf b :
